@@ -18,6 +18,7 @@ type LocalDB struct {
 	intx         bool
 	hasbegin     bool
 	kvs          []*types.KeyValue
+	txkvs        int // len(kvs) when the open transaction began
 	txid         *types.Int64
 	client       queue.Client
 	api          client.QueueProtocolAPI
@@ -84,6 +85,7 @@ func (l *LocalDB) Begin() {
 	l.keys = nil
 	l.txcache.Reset()
 	l.hasbegin = false
+	l.txkvs = len(l.kvs)
 }
 
 func (l *LocalDB) begin() {
@@ -107,6 +109,7 @@ func (l *LocalDB) save() error {
 			return err
 		}
 		l.kvs = nil
+		l.txkvs = 0
 	}
 	return nil
 }
@@ -146,6 +149,14 @@ func (l *LocalDB) Rollback() {
 		err := l.api.LocalRollback(l.txid)
 		if err != nil {
 			panic(err)
+		}
+	}
+	// 丢弃本次事务中尚未提交到远端的缓存写入, 否则会被下一次 save 一并提交
+	if l.intx && l.txkvs <= len(l.kvs) {
+		if l.txkvs == 0 {
+			l.kvs = nil
+		} else {
+			l.kvs = l.kvs[:l.txkvs]
 		}
 	}
 	l.resetTx()
